@@ -225,16 +225,28 @@ def r1_keys(ctx) -> None:
     for n in ast.walk(gd.node):
         if isinstance(n, ast.Assign) and unparse(n.targets[0]) == "accepted_regexps" and isinstance(n.value, ast.Tuple):
             pats = [e.value for e in n.value.elts if isinstance(e, ast.Constant) and isinstance(e.value, str)]
-    wsrc = unparse(prog.func("sigma.rule.base.SigmaRuleBase.to_dict").node)
-    if not pats or wsrc.count(".isoformat()") != 2:
-        raise AnalysisError("date patterns of the reader / the two isoformat() calls of the writer not found")
+    if not pats:
+        raise AnalysisError("date patterns of the reader not found")
     wf_ = prog.func("sigma.rule.base.SigmaRuleBase.to_dict")
+    # the writer interpreted (sa.tabulate, Proxy) on a stand-in rule whose date / modified hold a date or a timestamp
+    import datetime as _dt
+    from ..tabulate import Proxy, call_method, Raised
+    base_attrs = {k: None for k in ("id", "status", "level", "author", "description", "name", "license", "references", "fields", "falsepositives", "scope", "related", "taxonomy")}
+    base_attrs.update({"title": "t", "tags": [], "custom_attributes": {}, "source": None})
     for attr in ("date", "modified"):
-        okd = f"(self.{attr}.date() if isinstance(self.{attr}, dt.datetime) else self.{attr}).isoformat()" in wsrc or f"self.{attr}.date().isoformat()" in wsrc
-        if okd:
-            r.ok("C06.R1", wf_.qual, f"{attr}: a timestamp is written as its date (isoformat of a date is YYYY-MM-DD)", wf_.loc)
+        outs = {}
+        for what, val in (("date", _dt.date(2024, 1, 5)), ("timestamp", _dt.datetime(2024, 1, 5, 10, 30, 0)), ("timestamp with zone", _dt.datetime(2024, 1, 5, 10, 30, 0, tzinfo=_dt.timezone.utc))):
+            env = {"dt": _dt, "datetime": _dt, "date": _dt.date}
+            me = Proxy(prog, "sigma.rule.base.SigmaRuleBase", env, dict(base_attrs, **{"date": None, "modified": None, attr: val}), interp_kwargs={"max_steps": 6000})
+            try:
+                d_ = call_method(prog, "sigma.rule.base.SigmaRuleBase", "to_dict", me, env, interp_kwargs={"max_steps": 6000})
+                outs[what] = d_.get(attr) if isinstance(d_, dict) else repr(d_)
+            except Raised as ex:
+                outs[what] = f"<raises {ex}>"
+        if all(v == "2024-01-05" for v in outs.values()):
+            r.ok("C06.R1", wf_.qual, f"{attr}: a timestamp is written as its date (isoformat of a date is YYYY-MM-DD) — interpreted on a date and two timestamps", wf_.loc)
         else:
-            r.violation("C06.R1", wf_.qual, f"d['{attr}'] = self.{attr}.isoformat()", f"the loader accepts a YAML timestamp as {attr}, and isoformat() of a datetime is YYYY-MM-DDTHH:MM:SS — none of the reader's date patterns: the written rule cannot be loaded again", wf_.loc)
+            r.violation("C06.R1", wf_.qual, f"d['{attr}'] = self.{attr}.isoformat(): {outs}", f"the loader accepts a YAML timestamp as {attr}, and isoformat() of a datetime is YYYY-MM-DDTHH:MM:SS — none of the reader's date patterns: the written rule cannot be loaded again", wf_.loc)
     rejected = [f"{y:04d}-{m_:02d}-{d_:02d}" for y in (1000, 1999, 2024, 3999) for m_ in range(1, 13) for d_ in range(1, 32)
                 if not any(_re.fullmatch(p_, f"{y:04d}-{m_:02d}-{d_:02d}") for p_ in pats)]
     if rejected:
@@ -476,8 +488,8 @@ def r4_live_state(ctx) -> None:
         for n in ast.walk(wf.node):
             if isinstance(n, (ast.For, ast.comprehension)) and isinstance(n.target, ast.Name):
                 cs = _const_strs(n.iter)
-                if cs is not None:
-                    loop_consts[n.target.id] = cs
+                if cs is not None:  # the same loop variable may serve several loops: all their constants
+                    loop_consts[n.target.id] = loop_consts.get(n.target.id, []) + [c_ for c_ in cs if c_ not in loop_consts.get(n.target.id, [])]
         for n in ast.walk(wf.node):
             if isinstance(n, ast.Attribute) and isinstance(n.ctx, ast.Load):
                 for c in ctx.types.receiver_classes(wf.module, n) or ([wf.cls.qual] if isinstance(n.value, ast.Name) and n.value.id == "self" and wf.cls else []):
@@ -559,6 +571,7 @@ class _ItemSelf:
 def r5_tabulated_writers(ctx) -> None:
     r, prog = ctx.r, ctx.prog
     r.rule("C06.R5", "value and linking rendering, tabulated: SigmaDetectionItem.to_plain writes a string verbatim (regex form) iff the item has the re modifier, for every value count including 0 and lists; SigmaDetection.to_plain writes OR-linked items as a list of maps, AND-linked items as one map, and fails for linkings a data structure cannot express")
+    from ..tabulate import Proxy, call_method
     f = prog.func(ITEM + ".to_plain")
     wrong: list[str] = []
     n = 0
@@ -566,11 +579,12 @@ def r5_tabulated_writers(ctx) -> None:
         for kinds in ([], ["S"], ["O"], ["S", "S"], ["S", "O"], ["O", "S", "S"]):
             mods = [SigmaRegularExpressionModifier] if remod else [SigmaContainsModifier]
             orig = [(_SS(i) if k == "S" else _OT(i)) for i, k in enumerate(kinds)]
-            it = Interp({"self": _ItemSelf(orig, mods), "SigmaString": _SS, "SigmaRegularExpressionModifier": SigmaRegularExpressionModifier,
-                         "reverse_modifier_mapping": {"SigmaRegularExpressionModifier": "re", "SigmaContainsModifier": "contains"},
-                         "sigma_exceptions": _Exc(), "cast": lambda t, v: v})
+            env = {"SigmaString": _SS, "SigmaRegularExpressionModifier": SigmaRegularExpressionModifier,
+                   "reverse_modifier_mapping": {"SigmaRegularExpressionModifier": "re", "SigmaContainsModifier": "contains"},
+                   "sigma_exceptions": _Exc(), "cast": lambda t, v: v, "Any": Any}
+            me = Proxy(prog, ITEM, env, {"original_value": orig, "modifiers": mods, "field": "f", "source": None, "is_keyword": (lambda: False)}, interp_kwargs={"max_steps": 5000})
             try:
-                got = it.call(f.node.body)
+                got = call_method(prog, ITEM, "to_plain", me, env, interp_kwargs={"max_steps": 5000})
             except Raised as e:
                 got = f"<raises {e}>"
             vals = [("R" if (k == "S" and remod) else "P") for k in kinds]
@@ -621,10 +635,10 @@ def r5_tabulated_writers(ctx) -> None:
     ]
     wrong = []
     for name, items, linking, want in cases:
-        it = Interp({"self": _DetSelf(items, linking), "SigmaDetection": _Det, "SigmaDetectionItem": _It, "ConditionAND": AND, "ConditionOR": OR,
-                     "sigma_exceptions": _Exc(), "cast": lambda t, v: v, "Any": Any}, max_steps=5000)
+        env = {"SigmaDetection": _Det, "SigmaDetectionItem": _It, "ConditionAND": AND, "ConditionOR": OR, "sigma_exceptions": _Exc(), "cast": lambda t, v: v, "Any": Any}
+        me = Proxy(prog, DET, env, {"detection_items": items, "item_linking": linking, "source": None}, interp_kwargs={"max_steps": 5000})
         try:
-            got = it.call(g.node.body)
+            got = call_method(prog, DET, "to_plain", me, env, interp_kwargs={"max_steps": 5000})
         except Raised:
             got = "<raises>"
         if got != want:
